@@ -37,10 +37,13 @@ Section Topo.
           end
         else if ok then
           let '(r1, r2, v', l) := tsearch Ms mode eps veto f v (set_nan c T) res in (r1, r2, v', (c, v) :: l)
-        else
+        else if m then
+          (* only the veto of a vigilance-passing category moves the vigilance (as in BaseART.step_fit; /repo fix 79caf04) *)
           let '(v1, keep) := dv_track Ms mode eps v c in
           if keep then let '(r1, r2, v', l) := tsearch Ms mode eps veto f v1 (set_nan c T) res in (r1, r2, v', (c, v) :: l)
           else (res, None, v1, [(c, v)])
+        else
+          let '(r1, r2, v', l) := tsearch Ms mode eps veto f v (set_nan c T) res in (r1, r2, v', (c, v) :: l)
       end
     end.
 
